@@ -360,7 +360,7 @@ def execute(prop, plan, tier, seed, expinfo, t_start):
 
         def _dl(job):
             lm, g = job
-            st, model, dt, out, who = L.run_portfolio(lm.query(g), 120 if tier == 'quick' else 300, workdir,
+            st, model, dt, out, who = L.run_portfolio(lm.query(g), 300 if tier == 'quick' else 900, workdir,
                                                       '%s.%s' % (lm.name, 'all' if g is None else g))
             return (lm, g, st, model, dt, out)
         with ThreadPoolExecutor(max_workers=6) as ex:
